@@ -418,6 +418,12 @@ func vfC04Modes() []vfC04Mode {
 	ms = append(ms, vfC04Mode{Name: "13-direct", Cfg: c})
 	c.HelloVerify = true
 	ms = append(ms, vfC04Mode{Name: "13-hrr", Cfg: c})
+	// both endpoints accept DTLS 1.2 and 1.3: the version itself is a negotiated parameter an attacker may try to steer
+	c = vfBaseCfg(vfSuiteInfo{Name: "default", Auth: "ecdsa"}, "ecdsa")
+	c.CVer, c.SVer, c.HelloVerify, c.Curves = "dual", "dual", true, 1
+	ms = append(ms, vfC04Mode{Name: "dual-both-hvtrue", Cfg: c})
+	c.HelloVerify = false
+	ms = append(ms, vfC04Mode{Name: "dual-both-hvfalse", Cfg: c})
 
 	return ms
 }
